@@ -303,7 +303,6 @@ func init() {
 						tags = append(tags, t)
 					}
 					sp.Tag.Sort(tags)
-					pos := bodyStart
 					var prior []*Sx
 					for _, pr := range ranges {
 						if pr.id == rg.id {
@@ -314,40 +313,70 @@ func init() {
 							prior = append(prior, L(I(pr.id), vt))
 						}
 					}
-					for _, t := range tags {
-						tb := []byte(t)
-						if sp.Tag.Pad != nil {
-							tb = sp.Tag.Pad.Pad(tb, sp.Tag.Length)
-						}
-						tw, err := sp.Tag.Enc.Encode(tb)
-						if err != nil {
+					// walk the tagged composite (and tagged composites nested in it): for every primitive subfield corrupt the
+					// first byte of its length prefix; the expected id path is the element followed by the tags down to it
+					emitted := 0
+					var walk func(c *field.Composite, bodyStart int, path []string)
+					walk = func(c *field.Composite, bodyStart int, path []string) {
+						csp := c.Spec()
+						if csp.Tag == nil || csp.Tag.Enc == nil || csp.Bitmap != nil {
 							return
 						}
-						sub := subs[t]
-						sp2, err := sub.Pack()
-						if err != nil {
-							return
+						csubs := c.GetSubfields()
+						var tags []string
+						for t := range csubs {
+							tags = append(tags, t)
 						}
-						dataStart := pos + len(tw)
-						pos = dataStart + len(sp2)
-						if _, isComp := sub.(*field.Composite); isComp || len(sp2) == 0 {
-							continue
-						}
-						for _, cand := range []byte{0x39, 0xf9, 0x99, 0x7f, 0xff, 0x84} {
-							if packed[dataStart] == cand {
+						csp.Tag.Sort(tags)
+						pos := bodyStart
+						for _, t := range tags {
+							tb := []byte(t)
+							if csp.Tag.Pad != nil {
+								tb = csp.Tag.Pad.Pad(tb, csp.Tag.Length)
+							}
+							tw, err := csp.Tag.Enc.Encode(tb)
+							if err != nil {
+								return
+							}
+							sub := csubs[t]
+							sp2, err := sub.Pack()
+							if err != nil {
+								return
+							}
+							dataStart := pos + len(tw)
+							pos = dataStart + len(sp2)
+							if len(sp2) == 0 {
 								continue
 							}
-							mut := append([]byte(nil), packed...)
-							mut[dataStart] = cand
-							probe := reflect.New(reflect.TypeOf(sub).Elem()).Interface().(field.Field)
-							probe.SetSpec(sub.Spec())
-							if _, err := probe.Unpack(mut[dataStart:rg.end]); err == nil {
+							if sc, isComp := sub.(*field.Composite); isComp {
+								if sb, err := sc.Bytes(); err == nil && len(path) < 3 {
+									walk(sc, dataStart+len(sp2)-len(sb), append(append([]string(nil), path...), t))
+								}
 								continue
 							}
-							emit(L(A("msg"), g.term, L(op("unpack", X(mut)), op("get"), op("note", L(A("c19p"), A(fmt.Sprint(rg.id)), X([]byte(t)), L(prior...))))))
-							break
+							for _, cand := range []byte{0x39, 0xf9, 0x99, 0x7f, 0xff, 0x84} {
+								if packed[dataStart] == cand {
+									continue
+								}
+								mut := append([]byte(nil), packed...)
+								mut[dataStart] = cand
+								probe := reflect.New(reflect.TypeOf(sub).Elem()).Interface().(field.Field)
+								probe.SetSpec(sub.Spec())
+								if _, err := probe.Unpack(mut[dataStart:rg.end]); err == nil {
+									continue
+								}
+								var tagPath []*Sx
+								for _, pt := range append(append([]string(nil), path...), t) {
+									tagPath = append(tagPath, X([]byte(pt)))
+								}
+								emit(L(A("msg"), g.term, L(op("unpack", X(mut)), op("get"), op("note", L(A("c19p"), A(fmt.Sprint(rg.id)), L(tagPath...), L(prior...))))))
+								emitted++
+								break
+							}
 						}
 					}
+					walk(cf, bodyStart, nil)
+					_ = emitted
 				}()
 			}
 		}
